@@ -235,7 +235,9 @@ def shard_corrupt(ctx, part, nparts):
             continue
         good = list(tables[tname][key])
         for what, bad in corruptions(good):
-            for direction in ("source", "target"):
+            # "both": the same duplicated label in the source and (rotated) in the target, so that
+            # the two label sets agree and only the duplicate test itself can reject (C10-seed7)
+            for direction in ("source", "target") + (("both",) if what[0] == "duplicate" else ()):
                 for reverse in (False, True):
                     spec = {
                         "kind": "corrupt",
@@ -257,6 +259,10 @@ def check_corrupt(good, bad, key, direction, tag, reverse=False):
     try:
         if direction == "source":
             out = convert_conventions(one_shell_basis(key, {key: bad}), {key: good}, reverse)
+        elif direction == "both":
+            out = convert_conventions(
+                one_shell_basis(key, {key: bad}), {key: bad[1:] + bad[:1]}, reverse
+            )
         else:
             out = convert_conventions(one_shell_basis(key, {key: good}), {key: bad}, reverse)
     except Exception:
